@@ -103,32 +103,44 @@ def contiguousFrom : Nat → List (Nat × JVal) → Bool
   | _, [] => true
   | i, (n, _) :: ms => n = i && contiguousFrom (i + 1) ms
 
+/-- the loop of `unflatten_object`; `sub` is the call made for a group -/
+def objStep (ordered : Bool) (sub : List Entry → JVal) (jo : List (Bytes × JVal)) : Item → List (Bytes × JVal)
+  | .skip => jo
+  | .direct t v => tryEmplace ordered t v jo
+  | .group t inner => tryEmplace ordered t (sub inner) jo
+
+/-- `unflatten_object(first, last, offset, options)` -/
+def asObject (ordered : Bool) (sub : List Entry → JVal) (es : List Entry) : JVal :=
+  match es with
+  | [([], v)] => v                       -- tokens().size() == offset && length == 1
+  | _ => .obj ((items es).foldl (objStep ordered sub) [])
+
+/-- what the loop of `try_unflatten_array` emplaces for an item, `none` where it gives up -/
+def idxChild (sub : List Entry → JVal) (it : Item) : Option (Nat × JVal) :=
+  (itemIndex it).map fun n =>
+    (n, match it with
+        | .skip => JVal.null
+        | .direct _ v => v
+        | .group _ inner => sub inner)
+
+/-- `try_unflatten_array` up to its fallback: `none` = "return unflatten_object(first, last, offset, none)" -/
+def asArray (sub : List Entry → JVal) (es : List Entry) : Option JVal :=
+  match (items es).mapM (idxChild sub) with
+  | none => none
+  | some ivs =>
+    let m := emplaceAll natLt [] ivs
+    if contiguousFrom 0 m then some (.arr (m.map (·.2))) else none
+
 /-- `arrays` = (options == unflatten_options::none); `tryArr` = this call is `try_unflatten_array`
     (only ever with `arrays`), otherwise `unflatten_object`. -/
 def build (ordered : Bool) : Nat → (arrays tryArr : Bool) → List Entry → JVal
   | 0, _, _, _ => .null
   | fuel + 1, arrays, tryArr, es =>
-    let its := items es
-    let asObject : JVal :=
-      match es with
-      | [([], v)] => v
-      | _ =>
-        .obj (its.foldl (fun jo it =>
-          match it with
-          | .skip => jo
-          | .direct t v => tryEmplace ordered t v jo
-          | .group t inner => tryEmplace ordered t (build ordered fuel arrays arrays inner) jo) [])
     if tryArr then
-      match its.mapM (fun it => (itemIndex it).map fun n =>
-              (n, match it with
-                  | .skip => JVal.null
-                  | .direct _ v => v
-                  | .group _ inner => build ordered fuel true true inner)) with
-      | none => asObject
-      | some ivs =>
-        let m := emplaceAll natLt [] ivs
-        if contiguousFrom 0 m then .arr (m.map (·.2)) else asObject
-    else asObject
+      match asArray (build ordered fuel true true) es with
+      | some a => a
+      | none => asObject ordered (build ordered fuel true true) es   -- unflatten_object(first, last, offset, none)
+    else asObject ordered (build ordered fuel arrays arrays) es
 
 inductive UErr where
   | invalidArgument | pointer (e : PErr)
